@@ -182,6 +182,33 @@ def _relations_one(M, rec, rng, desc, vals, pars, ek, symvals):
                                   {"desc": desc, "vals": vals, "pars": pars, "link": l["id"], "segment": i,
                                    "limited": x, "unlimited": y})
         cmp_all(rec, "R2 segments without a limit", ek, desc, c, base, vals, pars, skip=skip)
+        # R2b: the same limit shown on every sign, written once (a float / 0-d / length-1 value that the
+        #      engine broadcasts over the signs) instead of once per sign: same step, and in particular
+        #      the segments without a sign keep their equilibrium speed
+        multi = [l for l in vsl_links if len(l["vsl"]) >= 2]
+        if multi and ek == "numpy":
+            NE, CE = drive.engines(M)
+            vsame = copy.deepcopy(vals)
+            for l in multi:
+                V = min(R.veq(x, l["v_free"], l["rho_crit"], l["a"]) for x in vals[l["id"]]["rho"])
+                cval = rng.choice((V * 0.6, V * 0.9, 50.0, 70.0))
+                vsame[l["id"]]["v_ctrl"] = [cval] * len(l["vsl"])
+            full = step_numbers(M, desc, vsame, pars, ek, symvals)
+            built = D.build(M, desc)
+            ic = drive.np_init(built, vsame, "vec1")
+            form = rng.choice(("float", "0d", "len1"))
+            for l in multi:
+                cval = vsame[l["id"]]["v_ctrl"][0]
+                ic[built.links[l["id"]]]["v_ctrl"] = {"float": float(cval), "0d": np.array(float(cval)), "len1": np.array([float(cval)])}[form]
+            try:
+                built.net.step(init_conditions=ic, engine=NE(), **drive.step_pars(pars))
+                one = drive.read_next(built)
+                rec.count("relation_R2b_single_value_for_all_signs")
+                rec.seen("relations", ("R2b-one-value-for-all-signs", ek))
+                cmp_all(rec, f"R2b one limit value for all signs ({form}) vs the same value per sign", ek, desc, one, full, vsame, pars)
+            except Exception as e:
+                rec.count("single_value_limit_not_accepted")
+                rec.seen("single_value_limit_not_accepted", repr(e)[:100])
     # ---------- R3 / R4: ramps at r = 1
     ramps = [o for o in desc["origins"] if o["kind"] == "ramp"]
     if ramps:
@@ -289,6 +316,8 @@ def dec_cveq(kind, args, kwargs, res, rec):
     rho = primmon.flat(a["rho"])
     vc = primmon.flat(a["v_ctrl"]) if a["v_ctrl"] is not None else []
     vsl = list(a["vsl"])
+    if len(vc) == 1 and len(vsl) > 1:
+        vc = vc * len(vsl)  # one value shown on every sign
     try:
         al, vf, rc, aa = (primmon.flat(a[k])[0] for k in ("alpha", "v_free", "rho_crit", "a"))
     except Exception:
